@@ -141,7 +141,7 @@ func (e *EventSubscription) Enqueue(f func()) {
 	// assigned to the event subscription, so we pass it to one.
 	// This only applies if no locks are active
 	if locks == nil && count == 0 {
-		e.cache.inCh <- e
+		e.cache.enqueue(e)
 	}
 }
 
@@ -155,7 +155,7 @@ func (e *EventSubscription) enqueueUnlock(f func()) {
 	e.mu.Unlock()
 
 	if count == 0 {
-		e.cache.inCh <- e
+		e.cache.enqueue(e)
 	}
 }
 
